@@ -3,6 +3,11 @@
 #include <stdint.h>
 #include "bpm.h"
 #include "sequence_distance.h"
+#include "msa_struct.h"
+#include "msa_op.h"
+#include "msa_alloc.h"
+#include "alphabet.h"
+#include "tldevel.h"
 #include "../oracle/editdist.h"
 
 const char* vh_property = "C11";
@@ -47,10 +52,12 @@ static uint64_t secE(int tier) { return tier ? (1u << 18) : (1u << 14); }
 /* F: the only user of the kernel, calc_distance(), on deterministic pairs whose distance is far above 255 */
 static const int FLEN[8][2] = {{300, 280}, {520, 260}, {600, 600}, {700, 513}, {1100, 900}, {1100, 1100}, {2000, 1500}, {257, 256}};
 #define NF (8 * 6)
+/* G: the distance matrices d_estimation() builds (exact mode and anchor mode): every entry = substring edit distance + a length term in [0,1) */
+#define NG 6
 
 uint64_t vh_total(int tier)
 {
-        return secA(tier) + secC(tier) + (uint64_t)ND * DSLICES + secE(tier) + NF;
+        return secA(tier) + secC(tier) + (uint64_t)ND * DSLICES + secE(tier) + NF + NG;
 }
 
 static void judge(const char* which, int got, int want, const uint8_t* t, int n, const uint8_t* p, int m)
@@ -121,6 +128,8 @@ void vh_describe(uint64_t id, int tier, char* buf, size_t n)
         }else if(id < secA(tier) + secC(tier) + ND * DSLICES + secE(tier)){
                 snprintf(buf, n, "E: one-edit family around binary text #%llu of length %d at 8-bit width (3 blocks)",
                          (unsigned long long)(id - secA(tier) - secC(tier) - ND * DSLICES), tier ? 18 : 14);
+        }else if(id >= secA(tier) + secC(tier) + ND * DSLICES + secE(tier) + NF){
+                snprintf(buf, n, "G: d_estimation distance matrices on a deterministic set #%llu (lengths 120..2600)", (unsigned long long)(id - secA(tier) - secC(tier) - ND * DSLICES - secE(tier) - NF));
         }else{
                 uint64_t k = id - secA(tier) - secC(tier) - ND * DSLICES - secE(tier);
                 snprintf(buf, n, "F: calc_distance on a deterministic pair of lengths %d and %d (seed %d), both argument orders", FLEN[k / 6][0], FLEN[k / 6][1], (int)(k % 6));
@@ -231,6 +240,64 @@ int vh_case(uint64_t id, int tier)
                 det_text(len, t, (uint64_t)vh_seed);
                 family(t, len, stride, (int)(k % DSLICES), DSLICES, len <= 128, 13);
                 vh_count("block_boundary_family_cases");
+        }else if(id >= secA(tier) + secC(tier) + ND * DSLICES + secE(tier) + NF){
+                int k = (int)(id - secA(tier) - secC(tier) - ND * DSLICES - secE(tier) - NF);
+                static const int LENS[6][4] = {{2600, 2600, 101, 120}, {1200, 1100, 300, 900}, {2200, 400, 2100, 150}, {600, 600, 600, 590}, {5000, 2500, 1000, 200}, {130, 120, 125, 128}};
+                struct msa* m = NULL;
+                char* seq[4];
+                int len[4], i, j, samples[4] = {0, 1, 2, 3};
+                float** dm;
+                static char buf4[4][5200];
+                uint64_t st = 31 + (uint64_t)k;
+                for(i = 0; i < 4; i++){
+                        int q;
+                        len[i] = LENS[k][i];
+                        for(q = 0; q < len[i]; q++){
+                                st = st * 6364136223846793005ULL + 1442695040888963407ULL;
+                                buf4[i][q] = "ACGT"[(st >> 33) & 3];
+                        }
+                        if(i == 1 && len[1] == len[0]){
+                                memcpy(buf4[1], buf4[0], (size_t)len[0]);      /* a duplicate */
+                        }
+                        if(i >= 2 && len[i] < len[0]){
+                                memcpy(buf4[i], buf4[0] + 17, (size_t)len[i]);   /* a fragment of the first sequence ... */
+                                buf4[i][len[i] / 2] = buf4[i][len[i] / 2] == 'A' ? 'C' : 'A';    /* ... with one substitution */
+                        }
+                        buf4[i][len[i]] = 0;
+                        seq[i] = buf4[i];
+                }
+                vh_case_timeout = 120;
+                alarm(120);
+                if(kalign_arr_to_msa(seq, len, 4, &m) != OK || convert_msa_to_internal(m, ALPHA_defDNA) != OK){
+                        vh_fail("sem:setup-failed", "could not build the msa");
+                        return VH_OK;
+                }
+                vh_count("library_calls");
+                for(int mode = 0; mode < 2; mode++){
+                        dm = d_estimation(m, samples, 4, mode);         /* mode 1: exact pairwise matrix (< 100 sequences); 0: sequence-to-anchor matrix */
+                        if(!dm){
+                                vh_fail("sem:d_estimation-failed", "d_estimation returned NULL");
+                                break;
+                        }
+                        for(i = 0; i < 4; i++){
+                                for(j = 0; j < 4; j++){
+                                        const uint8_t* t = m->sequences[len[i] > len[j] ? i : j]->s;
+                                        const uint8_t* p = m->sequences[len[i] > len[j] ? j : i]->s;
+                                        int lt = len[i] > len[j] ? len[i] : len[j], lp = len[i] > len[j] ? len[j] : len[i];
+                                        int ed = ed_substring(t, lt, p, lp > 1024 ? 1024 : lp);
+                                        double extra = (double)dm[i][j] - (double)ed;
+                                        if(!(extra >= -1e-3 && extra < 1.0)){
+                                                vh_fail("sem:distance-matrix-entry", "%s matrix: d[%d][%d] = %g for lengths %d and %d, edit distance %d: the length term is %g, not in [0,1)",
+                                                        mode ? "pairwise" : "anchor", i, j, (double)dm[i][j], len[i], len[j], ed, extra);
+                                                i = 4;
+                                                break;
+                                        }
+                                }
+                        }
+                        /* the matrices are the library's own allocations (galloc / _mm_malloc): left to the end of the worker process */
+                }
+                vh_count("distance_matrices_checked");
+                kalign_free_msa(m);
         }else if(id >= secA(tier) + secC(tier) + ND * DSLICES + secE(tier)){
                 uint64_t k = id - secA(tier) - secC(tier) - ND * DSLICES - secE(tier);
                 static uint8_t a[4096], b[4096];
